@@ -33,7 +33,9 @@ async fn run_case(c: &Case) -> Vec<(String, String)> {
     let what = format!("{} over {} after history '{}', then {}", c.ty.name(), c.tr.name(), HISTS[c.hist], if c.close { "close()" } else { "drop" });
     let handle = tokio::runtime::Handle::current();
     let baseline_tasks = handle.metrics().num_alive_tasks();
-    let mut sock = AnySocket::new(c.ty, None);
+    let mut sock = AnySocket::new_unmonitored(c.ty, None);
+    // a monitor is installed (and kept) so that the event paths run too
+    let _monitor = sock.monitor();
     sock.subscribe_all().await;
     let mut accepted: Vec<RawStream> = Vec::new();
     let mut silent: Vec<RawStream> = Vec::new();
@@ -184,7 +186,7 @@ async fn run_case(c: &Case) -> Vec<(String, String)> {
         }
         if ok {
             // the endpoint can be bound again
-            let mut again = AnySocket::new(c.ty, None);
+            let mut again = AnySocket::new_unmonitored(c.ty, None);
             match again.bind(&ep.to_string()).await {
                 Ok(_) => {
                     let _ = again.close().await;
@@ -253,7 +255,7 @@ pub fn child_emfile() -> i32 {
 async fn emfile_case(ty: Ty, tr: Tr, close: bool) -> Vec<(String, String)> {
     let mut viol: Vec<(String, String)> = Vec::new();
     let what = format!("{} over {}: accept() fails for lack of descriptors while a client connects, descriptors are freed, then {}", ty.name(), tr.name(), if close { "close()" } else { "drop" });
-    let mut sock = AnySocket::new(ty, None);
+    let mut sock = AnySocket::new_unmonitored(ty, None);
     let mut monitor = sock.monitor();
     let ep = match sock.bind(&e4::bind_spec(tr)).await {
         Ok(e) => e,
@@ -314,7 +316,7 @@ async fn emfile_case(ty: Ty, tr: Tr, close: bool) -> Vec<(String, String)> {
         }
     }
     if ok {
-        let mut again = AnySocket::new(ty, None);
+        let mut again = AnySocket::new_unmonitored(ty, None);
         match again.bind(&ep.to_string()).await {
             Ok(_) => {
                 let _ = again.close().await;
